@@ -5,7 +5,7 @@ import subprocess
 import sys
 
 VERIF = os.path.dirname(os.path.dirname(os.path.abspath(__file__)))
-LEAN_DIR = os.path.join(VERIF, "lean", "TrashVerif")
+LEAN_DIR = os.environ.get("VERIF_LEAN_DIR", os.path.join(VERIF, "lean", "TrashVerif"))   # scratch copies of the Lean project while a model change is in work
 DRIVER = os.path.join(LEAN_DIR, ".lake", "build", "bin", "driver")
 
 
